@@ -26,6 +26,7 @@ import numpy as np
 from . import common
 
 TOL = 1e-9
+TOL32 = 1e-5     # float32 observables: NumPy accumulates their means in float32
 WKEYS = ("time_min", "time_max", "lat_min", "lat_max", "lon_min", "lon_max")
 
 
@@ -84,7 +85,17 @@ def win_of_token(tok):
 _NUM = re.compile(r"-?\d+(?:/\d+)?")
 
 
-def same(model, impl, tol):
+def tol_of(case, exact):
+    """(relative tolerance, scale): 0 on the exact-integer stream; on the dyadic stream 1e-9
+    for float64 / int64 observables, 1e-5 relative to max |observable| for float32 ones"""
+    if exact:
+        return 0, 1
+    if case["dtype"] == "float32":
+        return TOL32, max([1.0] + [abs(x) for r in case["obs"] for x in r])
+    return TOL, 1
+
+
+def same(model, impl, tol, scale=1):
     """structure identical, numbers equal (tol = 0) or within tol"""
     if model == impl:
         return True
@@ -95,7 +106,7 @@ def same(model, impl, tol):
     a = [Fraction(s) for s in _NUM.findall(model)]
     b = [Fraction(s) for s in _NUM.findall(impl)]
     return len(a) == len(b) and all(
-        abs(x - y) <= tol * max(1, abs(x)) for x, y in zip(a, b))
+        abs(x - y) <= tol * max(scale, abs(x)) for x, y in zip(a, b))
 
 
 # --------------------------------------------------------------------------
@@ -358,7 +369,7 @@ def _check_state(ctx, case, obj, view, upto, exact, after):
         if pi.tolist() != exp_pi:
             ok = bad("phase_indices", "value", "phase_indices() are not the complete-year indices "
                      "of each phase", observed=pi.tolist(), expected=exp_pi)
-    tol = Fraction(0) if exact else Fraction(TOL)
+    tol = Fraction(tol_of(case, exact)[0])
     scale = max([1] + [abs(x) for r in view["obs"] for x in r])
 
     def close(a, b):
@@ -726,11 +737,17 @@ def gen_case(ctx, rng, exact, quick):
     else:
         den = rng.choice([1, 4, 64, 1024])
         obs = [[rng.randrange(-2000, 2001) / den for _ in range(N)] for _ in range(T)]
+        # caller arrays of other types whose means are NOT representable exactly
+        r = rng.random()
+        if den == 1 and r < 0.5:
+            dtype = "int64"
+        elif r < 0.25:
+            dtype = "float32"
     flag = 1 if (cls == "ClimateData" and rng.random() < 0.3) else 0
     if cls.startswith("Small"):
         sd = small_data(cls)
         time, lat, lon, obs = sd["time"], sd["lat"], sd["lon"], sd["obs"]
-        T, N, c, tstep, flag = len(time), len(lat), 5, 1.0, 0
+        T, N, c, tstep, flag, dtype = len(time), len(lat), 5, 1.0, 0, "float64"
     climate = cls in ("ClimateData", "SmallClimate")
 
     def gen_window():
@@ -972,13 +989,13 @@ def run(ctx):
 
     model = common.driver(ctx.pid, reqs)
     bad = [i for i in range(len(reqs))
-           if not same(model[i], impl[i], 0 if exacts[i] else TOL)]
+           if not same(model[i], impl[i], *tol_of(cases[i][0], exacts[i]))]
 
     def first_diff(i):
         a, b = model[i].split("|"), impl[i].split("|")
         ops = ["<init>"] + cases[i][0]["ops"]
         for k, (x, y) in enumerate(zip(a, b)):
-            if not same(x, y, 0 if exacts[i] else TOL):
+            if not same(x, y, *tol_of(cases[i][0], exacts[i])):
                 return f"op#{k} {ops[k]}: model={x[:160]} impl={y[:160]}"
         return f"lengths {len(a)}/{len(b)}"
 
